@@ -208,7 +208,7 @@ def validate(run, experiments, sc, label, cfg="GPStoreTrace.cfg", consts=None):
     verdicts = {}
     drift = {}
     todo = [x for x in experiments if not x.error]
-    for attempt in range(8):
+    for attempt in range(6):
         lines, owner = [], []
         for x in todo:
             for e in x.events:
@@ -242,9 +242,10 @@ def validate(run, experiments, sc, label, cfg="GPStoreTrace.cfg", consts=None):
         for xid in list(verdicts):
             if xid == bad:
                 del verdicts[xid]
+    else:
+        # still rejected after all attempts: the code has left the model in (nearly) every experiment; the
+        # remaining ones are not validated action by action but judged by the property statement directly
+        for x in todo:
+            if x.xid not in drift and x.xid not in verdicts:
+                drift[x.xid] = {"event": None, "prev": None, "note": "not validated: too many experiments left the model"}
     return verdicts, drift
-
-
-def parallel(fn, jobs, workers=None):
-    with ThreadPoolExecutor(max_workers=workers or min(12, vlib.NCPU)) as ex:
-        return list(ex.map(lambda a: fn(*a), jobs))
